@@ -99,15 +99,6 @@ func protCode(name string) int {
 	return -1
 }
 
-// exchangeabilities and model frequencies as exported by goalign (data, not the judged code)
-func protData(name string) (s matrix, pi []float64) {
-	s, pi, err := refmodels.ProtData(name)
-	if err != nil {
-		panic("harness: " + err.Error())
-	}
-	return
-}
-
 func isProt(name string) bool { return protCode(name) >= 0 }
 
 func logUniform(t *rapid.T, lo, hi float64, label string) float64 {
@@ -361,7 +352,11 @@ func gtrRate(r []float64, i, j int) float64 {
 // expected substitution" is open, see below) and the stationary distribution
 func textbookQ(c mCase) (qs []matrix, pi []float64, err error) {
 	if isProt(c.Model) {
-		s, mpi := protData(c.Model)
+		// the exported tables, checked against the fingerprint of the published ones (pinned snapshot)
+		s, mpi, perr := refmodels.ProtData(c.Model)
+		if perr != nil {
+			return nil, nil, fmt.Errorf("%s: the rate matrix is not the textbook one: %v", c.Model, perr)
+		}
 		for i := 0; i < 20; i++ {
 			for j := 0; j < 20; j++ {
 				if s[i][j] != s[j][i] || s[i][j] < 0 {
